@@ -378,7 +378,7 @@ func rulesStatus(c *Ctx) {
 		}
 		ords := weakOrderings(syms)
 		nRun := 0
-		var cexMax, cexProg, cexInv, undec string
+		var cexMax, cexProg, cexInv, cexFloor, undec string
 		for _, o := range ords {
 			if o["p+1"] != o["p"]+1 {
 				continue // p+1 is the successor of p
@@ -403,6 +403,11 @@ func rulesStatus(c *Ctx) {
 				if o[s] < o["p"] && cexProg == "" {
 					cexProg = fmt.Sprintf("with %s the progress is set to %s, below its previous value", o.String(), s)
 				}
+				// at rest progress must equal the maximum, which is at least the number of entries held:
+				// a recalculation that leaves progress below the log length can be the last one
+				if o[s] < o["logLen"] && cexFloor == "" {
+					cexFloor = fmt.Sprintf("with %s the progress is set to %s, below the number of entries the log holds", o.String(), s)
+				}
 			}
 			if len(st.setProgress) > 0 && len(st.setMax) > 0 {
 				if o[st.progress] > o[st.max] && cexInv == "" {
@@ -420,8 +425,10 @@ func rulesStatus(c *Ctx) {
 			c.bad("R2", fk+"#monotone-progress", f.Pos(), "the replication progress can decrease: "+cexProg)
 		case cexInv != "":
 			c.bad("R2", fk+"#progress<=max", f.Pos(), "the invariant progress <= maximum is not re-established: "+cexInv)
+		case cexFloor != "":
+			c.bad("R2", fk+"#progress>=entries", f.Pos(), "progress can be left below the number of entries held, so it does not reach the maximum at rest (entries with equal clocks are counted once): "+cexFloor)
 		default:
-			c.ok("R2", fk+"#monotone", f.Pos(), fmt.Sprintf("on all %d order types of %v (progress+1 the successor of progress, progress <= maximum on entry) neither value decreases and progress <= maximum is re-established", nRun, syms))
+			c.ok("R2", fk+"#monotone", f.Pos(), fmt.Sprintf("on all %d order types of %v (progress+1 the successor of progress, progress <= maximum on entry) neither value decreases, progress <= maximum is re-established and progress ends at or above the log length", nRun, syms))
 		}
 	}
 }
